@@ -293,9 +293,33 @@ class Elem:
             return sp.Piecewise((self.expr(e.body), self.expr(e.test)), (self.expr(e.orelse), True))
         self.err(f"expression kind {type(e).__name__} not modelled", e)
 
+    def _clip(self, x, args, keywords, node):
+        """x.clip(lo, hi) / np.clip(x, lo, hi), keyword names min/max (a_min/a_max); None = no bound"""
+        lo = hi = None
+        pos = list(args)
+        if pos:
+            lo = pos[0]
+        if len(pos) > 1:
+            hi = pos[1]
+        for k in keywords:
+            if k.arg in ("min", "a_min"):
+                lo = k.value
+            elif k.arg in ("max", "a_max"):
+                hi = k.value
+            else:
+                self.err(f"keyword {k.arg} of clip", node)
+        out = x
+        if lo is not None and not (isinstance(lo, ast.Constant) and lo.value is None):
+            out = sp.Max(out, self.expr(lo))
+        if hi is not None and not (isinstance(hi, ast.Constant) and hi.value is None):
+            out = sp.Min(out, self.expr(hi))
+        return out
+
     def call(self, e):
         d = dotted(e.func)
         short = d.split(".")[-1] if d else None
+        if d in ("np.clip", "numpy.clip") and e.args:
+            return self._clip(self.expr(e.args[0]), e.args[1:], e.keywords, e)
         if d in self.handlers:
             r = self.handlers[d](self, e)
             if r is not None:
@@ -317,8 +341,9 @@ class Elem:
             if m == "dot":
                 return LinearSum(recv * self.expr(e.args[0]))
             if m == "clip":
-                lo = [k.value for k in e.keywords if k.arg == "min"] or e.args[:1]
-                return sp.Max(recv, self.expr(lo[0])) if lo else recv
+                return self._clip(recv, e.args, e.keywords, e)
+            if m in ("min", "max") and not e.args and not e.keywords:
+                return sp.Function("ArrMin" if m == "min" else "ArrMax")(recv)
             self.err(f"method .{m}() not modelled", e)
         if d and d.split(".")[0] in ("np", "numpy", "math"):
             if short in ("ones", "ones_like"):
